@@ -62,6 +62,9 @@ func c21Tag(f c21Field) string {
 	return `ce:"` + strings.Join(parts, ",") + `"`
 }
 
+// c21UnicodeNames: exported Go identifiers with non-ASCII letters whose upper/lower case mappings are one-to-one.
+var c21UnicodeNames = []string{"\u00dcber", "\u00c9clair", "\u00d1and\u00fa", "\u00c6r\u00f8", "\u03a9mega", "Na\u00efve", "Caf\u00e9"}
+
 func c21MakeType(c *fw.Ctx) (reflect.Type, []c21Field) {
 	n := 1 + c.Rng.Intn(7)
 	perm := c.Rng.Perm(len(gen.FieldNames))
@@ -69,8 +72,22 @@ func c21MakeType(c *fw.Ctx) (reflect.Type, []c21Field) {
 	var sf []reflect.StructField
 	for i := 0; i < n; i++ {
 		f := c21Field{goName: gen.FieldNames[perm[i]], typ: c21FieldTypes[c.Rng.Intn(len(c21FieldTypes))]}
+		if i < len(c21UnicodeNames) && c.Rng.Intn(5) == 0 {
+			// a name with non-ASCII letters (one capital, so both name styles only differ in its case): matching "ignoring case" covers them too
+			f.goName = c21UnicodeNames[(i+c.Idx)%len(c21UnicodeNames)]
+			for _, g := range fields {
+				if g.goName == f.goName {
+					f.goName = gen.FieldNames[perm[i]]
+				}
+			}
+			c.Inc("names.non_ascii")
+		}
 		if c.Rng.Intn(4) == 0 {
 			f.tagName = fmt.Sprintf("renamed_%c%d", 'a'+byte(i), i) // invariant under both name styles
+			if c.Rng.Intn(3) == 0 {
+				f.tagName = []string{"caf\u00e9", "\u00e0b\u00e7", "\u00fcber_x", "\u03c9mega"}[c.Rng.Intn(4)] + fmt.Sprint(i) // lower-case non-ASCII letters (a tagged name with capitals is re-styled under the snake-case style: don't-care)
+				c.Inc("names.non_ascii_tag")
+			}
 		}
 		switch c.Rng.Intn(8) {
 		case 0:
